@@ -11,6 +11,16 @@
 #define NAMES_MAX 3
 struct std_string g_names[NAMES_MAX + 2]; unsigned long g_names_len; int g_push_n;
 /* ---- ASSUMED model of std::vector<std::string> over the ghost array ---- */
+#ifndef G2C_HAVE_vstr_iterator   /* the iterator type exists in the generated header only if the code uses it */
+struct vstr_iterator { struct std_string *p; };
+#endif
+/* by position */
+unsigned long _ZNKSt6vectorINSt7__cxx1112basic_stringIcSt11char_traitsIcESaIcEEESaIS5_EE4sizeEv(const struct vec_string *this) { (void)this; return g_names_len; }
+_Bool _ZNKSt6vectorINSt7__cxx1112basic_stringIcSt11char_traitsIcESaIcEEESaIS5_EE5emptyEv(const struct vec_string *this) { (void)this; return g_names_len == 0; }
+struct std_string *_ZNSt6vectorINSt7__cxx1112basic_stringIcSt11char_traitsIcESaIcEEESaIS5_EEixEm(struct vec_string *this, unsigned long n)
+{ (void)this; __CPROVER_assert(n < g_names_len, "std::vector<std::string>::operator[]: index within size() (undefined behaviour otherwise)"); return &g_names[n]; }
+const struct std_string *_ZNKSt6vectorINSt7__cxx1112basic_stringIcSt11char_traitsIcESaIcEEESaIS5_EEixEm(const struct vec_string *this, unsigned long n)
+{ (void)this; __CPROVER_assert(n < g_names_len, "std::vector<std::string>::operator[] const: index within size() (undefined behaviour otherwise)"); return &g_names[n]; }
 struct vstr_iterator _ZNSt6vectorINSt7__cxx1112basic_stringIcSt11char_traitsIcESaIcEEESaIS5_EE5beginEv(struct vec_string *this)
 { struct vstr_iterator it; *(void **)&it = (void *)&g_names[0]; (void)this; return it; }
 struct vstr_iterator _ZNSt6vectorINSt7__cxx1112basic_stringIcSt11char_traitsIcESaIcEEESaIS5_EE3endEv(struct vec_string *this)
